@@ -437,6 +437,11 @@ class Gen:
             self.do({'op': 'pad_huge', 'r': r, 'm': meth, 'width': self.rng.choice([1000, 4096, 65536, 100001]),
                      'fill': self.rng.choice([' ', '*', '0']), 'extend': self.rng.random() < 0.6})
 
+    def g_fmt_huge(self):
+        r = self.pick()
+        if r:
+            self.do({'op': 'fmt_huge', 'r': r, 'spec': self.rng.choice(['>99999999999999999999', '*<99999999999999999999:red', '99999999999999999999', '^9223372036854775808'])})
+
     def g_pad_pair(self):
         """Two different justifications of the same object with the same width and fill."""
         r = self.pick()
@@ -1382,7 +1387,7 @@ PROFILES = {
                 assign_str=0.5, apply=0.5, qmq=1.2, esc_in_base=1.0),
     'C11': dict(nonuniform=2.5, strip_enclosed=1.5, new=0.5, case=1.5, strip=2, rmfix=2, replace=3.5, expandtabs=1, split=3.5, splitlines=1.5,
                 partition=2.5, assign_str=1.5, apply=1.5, remove=0.5, add=0.5, qmq=1.2, crossed_stops=0.5, cut_tail=0.8, esc_in_base=1.0),
-    'C12': dict(nonuniform=2, new=1, pad=5, pad_nested=1.5, pad_pair=1.5, pad_huge=0.2, fmt=5, apply=2, remove=0.5, slice=0.5, add=0.5, qmq=1.0, crossed_stops=0.4),
+    'C12': dict(nonuniform=2, new=1, pad=5, pad_nested=1.5, pad_pair=1.5, pad_huge=0.2, fmt_huge=0.1, fmt=5, apply=2, remove=0.5, slice=0.5, add=0.5, qmq=1.0, crossed_stops=0.4),
     'C16': weights(matching=6, apply_match=1.0, apply=3, remove=1, slice=0.5, render=0.2, case=1.5, copy=0.3, match_case_match=1.5, matching_adjacent=1.5),
     'C17': weights(find_settings=5, settings_at=2.5, apply=4, remove=2, slice=0.5, add=0.7, iadd=0.7, pad=1.2, assign_str=0.6, grow_then_slice=1.5, find_overlap=1.5, shrink_then_find=1.5,
                    strip=0.5, new_from=0.8),
@@ -1393,7 +1398,7 @@ PROFILES = {
     'C07': weights(remove=4, remove_edge=2.5, apply=5, clear=0.3, remove_prefixlike=1.2, remove_disjoint=1.2),
     'C08': weights(parse_twice=1.5, copy=3, eq=0.8, add=2.5, iadd=2.5, join=1.5, slice=3, new_from=2, replace=2, pad=0.7, strip=0.5, split=0.5, fmt=0.7,
                    matching=0.5, case=0.3),
-    'C09': weights(iter_join=1.0, iadd=2.5, replace=1.0, pad=2.0, pad_nested=1.0, pad_huge=0.15, remove_edge=0.7, restart_leftover=0.5, shared_objects=0.8, split=0.7, partition=0.5, strip=0.5, rmfix=0.5, case=0.3,
+    'C09': weights(iter_join=1.0, iadd=2.5, replace=1.0, pad=2.0, pad_nested=1.0, pad_huge=0.15, fmt_huge=0.1, remove_edge=0.7, restart_leftover=0.5, shared_objects=0.8, split=0.7, partition=0.5, strip=0.5, rmfix=0.5, case=0.3,
                    assign_str=0.5, query=0.5, matching=0.5, simplify=0.3, expandtabs=0.3, splitlines=0.3),
 }
 
